@@ -140,7 +140,7 @@ def campaign_jobs(pid, prop, tier, seed):
     jobs = []
     for b in prop['bins']:
         t = dict(b.get(tier, {}))
-        if t.get('skip'):
+        if t.get('skip') or b.get('kind') == 'aux':
             continue
         nseeds = t.get('seeds', 1)
         for i in range(nseeds):
@@ -187,7 +187,7 @@ def run_job(pid, tier, binpaths, job, outroot):
             args.append(os.path.join(VERIF, seedc))
         cmd = args
     elif kind == 'hyp':
-        cmd = [b.get('python', 'python3-vt'), os.path.join(VERIF, b['script']), '--run']
+        cmd = [b.get('python', 'python3-vt'), os.path.join(VERIF, b['script']), '--run'] + list(b.get('args', []))
         env['PBT_BIN_DIR'] = os.path.join(build.build_root(), 'bin')
     else:
         cmd = [binpaths[b['name']]]
